@@ -55,6 +55,21 @@ def grammar(depth3_sample, rng):
     return out + L3
 
 
+def literal_domains():
+    """quantifiers over literal domains, empty ones included (`[3 to 1]`, `![1 to 1]!`; `[x to 0]` is empty for x = 1): where the guard
+    `len(d) = 0 or p` of a conjunct hoisted out of a universal quantifier matters; plain, negated, and as a conjunct"""
+    RNG_E = ('range', int_lit(3), int_lit(1), False, False)
+    RNG_X = ('range', ('field', ('this',), 'x'), int_lit(0), False, False)
+    RNG_O = ('range', int_lit(1), int_lit(1), True, True)
+    RNG_N = ('range', int_lit(0), int_lit(2), False, False)
+    SET2 = ('set', [int_lit(1), int_lit(-1)])
+    bodies = [USE, ('bin', 'and', USE, B), ('bin', 'and', B, USE), ('bin', 'or', USE, B), ('un', 'not', ('bin', 'or', USE, B)),
+              ('bin', 'implies', USE, C), ('un', 'not', ('bin', 'implies', USE, C)), ('bin', 'and', USE, ('bin', 'and', B, C)),
+              ('bin', 'and', ('bin', 'and', USE, B), USE), ('bin', 'and', B, C)]
+    qs = [('quant', q, 'i', d, body) for q in ('all', 'some') for d in (RNG_E, RNG_X, RNG_O, RNG_N, SET2) for body in bodies]
+    return qs + [('un', 'not', a) for a in qs] + [('bin', 'and', a, C) for a in qs[::3]] + [('un', 'not', ('un', 'not', a)) for a in qs[::4]]
+
+
 def neg_stacks():
     """stacks of 2..5 negations over every shape the pre-split transformation rewrites (and over those it must leave alone),
     at top level, as a conjunct, below a negated disjunction and inside a universal quantifier"""
@@ -111,7 +126,7 @@ def run(ctx):
         head = forms[:140]
         rest = forms[140:]
         forms = head + rng.sample(rest, min(len(rest), 1600))
-    forms = forms + neg_stacks()
+    forms = forms + neg_stacks() + literal_domains()
     rejects = 0
     for r in forms:
         try:
